@@ -364,6 +364,10 @@ def check_shape_seq(lname, shape, expr, names, m):
             cache[i] = shape_greedy_end(spec, names, i)
         return cache[i]
 
+    # the same expression objects first go through the other two entry points (as get_headers' follow-up test and any
+    # caller may do): whatever those leave behind in the expression's predicates must not change what the search reports
+    call_sut(m.match, expr, toks)
+    call_sut(m.starts_with, expr, toks)
     r = call_sut(m.find_all, expr, toks)
     if r[0] == "exc":
         return (f"find_all:{r[1]}", f"{lname} {shape} tokens {' '.join(names)!r}: {r[2]}")
